@@ -108,8 +108,8 @@ def words_scope(res, pid, rng, tier):
     rounds = 18 if tier == "thorough" else 9
     plans = []
     for r in range(rounds):
-        words = WORDLISTS[(r + res.seed) % len(WORDLISTS)]
-        salt = SALTS[(r + res.seed) % len(SALTS)]
+        words = WORDLISTS[(r // 2 + res.seed) % len(WORDLISTS)]
+        salt = SALTS[(3 * r + 1 + res.seed) % len(SALTS)]          # every list meets two different salts in this process
         hyp = all(re.fullmatch(r"[g-zG-Z].*[g-zG-Z]|[g-zG-Z]", w) and not re.search(r"[0-9a-fA-F]{6}", w) and not re.search(r"\s", w) for w in words)
         user_res = None
         if r % 3 == 1:
@@ -327,8 +327,8 @@ def as_scope(res, pid, rng, tier):
     edge.append(("s", list(reversed(big))))
     for r in range(rounds + len(edge)):
         if r < rounds:
-            nums = AS_LISTS[(r + res.seed) % len(AS_LISTS)]
-            salt = SALTS[(r + res.seed) % len(SALTS)]
+            nums = AS_LISTS[(r // 2 + res.seed) % len(AS_LISTS)]
+            salt = SALTS[(3 * r + 1 + res.seed) % len(SALTS)]      # every list meets two different salts in this process
         else:
             salt, nums = edge[r - rounds]
         cfg = fa.FaCfg(salt=salt, asn=nums)
@@ -337,8 +337,28 @@ def as_scope(res, pid, rng, tier):
             continue
         lines = [gen_as_line(rng, nums) for _ in range(40 if tier == "thorough" else 20)]
         lines += ["router bgp %s\n" % n for n in nums] + [" neighbor 1.2.3.4 remote-as %s\n" % n for n in nums][:40]
+        long_lines = []
+        if r < 3 and len(nums) < 20:
+            # very long lines: a listed number straddling offsets 8192 / 16384 (twinned with the model) and 65536 / 131072
+            # (implementation and oracle only: the list-based model engine is quadratic on such lines)
+            for off in (8192, 16384, 65536, 131072):
+                n0 = nums[r % len(nums)]
+                for shift in (0, 1, len(n0) - 1):
+                    pad = "x" * (off - 7 - shift)
+                    ln = "remark " + pad + " " + n0 + " tail " + n0 + "\n"
+                    if off <= 8192 and shift == 0:
+                        lines.append(ln)
+                    else:
+                        long_lines.append(ln)
         for ln in lines:
             plans.append((cfg, nums, ln, t.line(ln)))
+        for ln in long_lines:
+            o = io.StringIO()
+            try:
+                t.obj.anonymize_io(io.StringIO(ln), o)
+                plans.append((cfg, nums, ln, "ok " + cps(o.getvalue()) + " -"))
+            except Exception as e:  # noqa
+                plans.append((cfg, nums, ln, "err " + exc_name(e)))
     dis = sess.finish(post=fa.model_out)
     res.evaluations += len(sess.lines)
     res.traces += rounds
